@@ -31,6 +31,17 @@ impl<'buf, IO: Io> Connection<'_, 'buf, IO> {
         let mut buffer = [0u8; CONTROL_PACKET_LEN];
         let packet = MqttSerializer::encode(&mut buffer, &disconnect)?;
         self.session.runtime.require_packet_size(packet.len())?;
+        // A packet that is already partly on the wire (a cancelled operation left it there) has to be
+        // completed first: DISCONNECT must start on a packet boundary.
+        while let Some(step) = self.session.data.outbound.next_step() {
+            if !step.in_progress() {
+                break;
+            }
+            if let Err(err) = self.perform_outbound_step(step, Instant::now()).await {
+                self.handle_disconnect();
+                return Err(err);
+            }
+        }
         let result = match write_all(&mut self.io, packet).await {
             Ok(()) => self.io.flush().await.map_err(Error::Transport),
             Err(err) => Err(err),
